@@ -11,15 +11,26 @@ import (
 	"pvharness/lib"
 )
 
-// Standard configurations: deliberately small pools so that exhaustion and wrap-around are reached.
+// NCfg is the number of standard configurations.
+const NCfg = 6
+
+// Standard configurations: deliberately small pools so that exhaustion and wrap-around are reached;
+// the netfilter subnet in the upper part of the home LAN, in its LOWEST sub-block (same network
+// address, longer prefix) and equal to it.
 func StdCfg(i, mode int) Cfg {
 	host := net.HardwareAddr{0x00, 0x55, 0x55, 0x55, 0x55, 0x55}
 	router := net.HardwareAddr{0x00, 0x66, 0x66, 0x66, 0x66, 0x66}
-	switch i % 4 {
+	switch i % NCfg {
+	case 5: // home /24, netfilter /25 in the lowest half (192.168.0.10/25 inside 192.168.0.0/24)
+		return Cfg{Mode: mode, HostIP: 0xc0a8000a, HostMAC: host, RouterIP: 0xc0a8000b, RouterMAC: router,
+			HomeIP: 0xc0a80000, HomeBits: 24, NfIP: 0xc0a8000a, NfBits: 25, DNS: 0x08080808}
+	case 4: // home /28 (pool .3-.14), netfilter /29 in the lowest sub-block (pool .3-.6): same network address
+		return Cfg{Mode: mode, HostIP: 0x0a000002, HostMAC: host, RouterIP: 0x0a000001, RouterMAC: router,
+			HomeIP: 0x0a000000, HomeBits: 28, NfIP: 0x0a000002, NfBits: 29, DNS: 0x0a000001}
 	case 3: // netfilter prefix = home LAN, as dhcp4_spoofer.New configures it
 		return Cfg{Mode: mode, HostIP: 0xc0a80009, HostMAC: host, RouterIP: 0xc0a80001, RouterMAC: router,
 			HomeIP: 0xc0a80000, HomeBits: 28, NfIP: 0xc0a80009, NfBits: 28, DNS: 0x08080404}
-	case 0: // home /28 (pool of 12), netfilter /29 (pool of 5)
+	case 0: // home /28 (pool of 12), netfilter /29 in the upper half (pool of 5)
 		return Cfg{Mode: mode, HostIP: 0xc0a80009, HostMAC: host, RouterIP: 0xc0a80001, RouterMAC: router,
 			HomeIP: 0xc0a80000, HomeBits: 28, NfIP: 0xc0a80009, NfBits: 29, DNS: 0x08080404}
 	case 1: // home /29 (pool of 4), netfilter /30 (pool of 1)
@@ -41,6 +52,17 @@ func (c Cfg) lan(net2 bool) (first, last uint32) {
 	return base, base + size - 1
 }
 
+// ident is one DHCP client as the server sees it: a hardware address and a client identifier
+// (option 61; absent = chaddr).  Several identifiers share one MAC, one identifier is used from two MACs.
+type ident struct {
+	mac    int
+	hasCid bool
+	cid    []byte
+	offer  uint32 // last OFFER this identity received
+	ack    uint32 // last ACK
+	xid    uint32
+}
+
 // Gen generates one history against a live server so that REQUESTs can echo what was really offered.
 type Gen struct {
 	R     *lib.Rand
@@ -48,17 +70,28 @@ type Gen struct {
 	Level int // 1: fresh clients, plain DISCOVER + matching REQUEST; 2: everything
 	sv    *Server
 	macs  []net.HardwareAddr
-	offer [3]uint32 // last OFFER seen per client
-	ack   [3]uint32 // last ACK seen per client
-	xid   [3]uint32
-	cidv  [3]int
+	ids   []*ident
+	cur   *ident          // identity of the op just generated (nil for C/U/T/E)
+	queue []func() string // scripted continuation (capture toggle, contention for one offer)
 	alpha []uint32
+	Stale [2]int // when non-zero: generate against a handler that loaded a stale lease file (home bits, netfilter bits); IP source forced to 0
 }
 
 func NewGen(r *lib.Rand, c Cfg, level int) *Gen {
 	g := &Gen{R: r, C: c, Level: level}
 	for i := 1; i <= 3; i++ {
 		g.macs = append(g.macs, net.HardwareAddr{0x02, 0, 0, 0, 0, byte(i)})
+	}
+	g.ids = []*ident{
+		{mac: 0}, {mac: 0, hasCid: true, cid: append([]byte{1}, g.macs[0]...)}, {mac: 0, hasCid: true, cid: []byte{0xb2}},
+		{mac: 1}, {mac: 1, hasCid: true, cid: []byte{0xaa}}, {mac: 1, hasCid: true, cid: []byte{}},
+		{mac: 2}, {mac: 2, hasCid: true, cid: []byte{0xaa}}, // the identifier aa is used from two MACs
+	}
+	if level == 1 {
+		g.ids = []*ident{g.ids[0], g.ids[3], g.ids[6]}
+	}
+	for _, id := range g.ids {
+		id.xid = xids[0]
 	}
 	n1, b1 := c.lan(false)
 	n2, b2 := c.lan(true)
@@ -67,7 +100,7 @@ func NewGen(r *lib.Rand, c Cfg, level int) *Gen {
 			g.alpha = append(g.alpha, x)
 		}
 	} else {
-		g.alpha = append(g.alpha, n1, n1+1, n1+2, n1+3, n1+4, b1-1, b1, n2, n2+1, n2+2, n2+3, n2+4, b2-1, b2)
+		g.alpha = append(g.alpha, n1, n1+1, n1+2, n1+3, n1+4, b1-1, b1, n2, n2+1, n2+2, n2+3, n2+4, b2-1, b2, b2+1, b2+2, c.HostIP+1, c.HostIP+2)
 	}
 	g.alpha = append(g.alpha, c.HostIP, c.RouterIP, 0, 0x08080808, 0xffffffff, b1+1, n1-1)
 	return g
@@ -76,12 +109,12 @@ func NewGen(r *lib.Rand, c Cfg, level int) *Gen {
 func (g *Gen) anyIP() uint32 {
 	if g.R.Chance(35) {
 		// somebody's offer or lease
-		i := g.R.Intn(3)
-		if g.R.Bool() && g.offer[i] != 0 {
-			return g.offer[i]
+		id := g.ids[g.R.Intn(len(g.ids))]
+		if g.R.Bool() && id.offer != 0 {
+			return id.offer
 		}
-		if g.ack[i] != 0 {
-			return g.ack[i]
+		if id.ack != 0 {
+			return id.ack
 		}
 	}
 	return g.alpha[g.R.Intn(len(g.alpha))]
@@ -90,59 +123,152 @@ func (g *Gen) anyIP() uint32 {
 var xids = []uint32{0x11111111, 0x22222222, 0x33333333}
 var prls = [][]byte{nil, {1, 3, 6}, {1, 3, 6}, {3, 6, 1}, {1, 121, 3, 6, 15, 119, 252}, {1, 33, 3, 6, 15, 26, 28, 51, 58, 59}, {53, 54, 51, 6}, {6, 1}}
 
-func (g *Gen) cid(i int, v int) (bool, []byte) {
-	switch v {
-	case 0:
-		return false, nil
-	case 1:
-		return true, append([]byte{1}, g.macs[i]...)
-	case 2:
-		return true, []byte{0xaa} // shared by all clients
-	default:
-		return true, []byte{}
-	}
-}
-
 func p32(x uint32) *uint32 { return &x }
 
-func (g *Gen) msg(kind byte, i int) Msg {
-	m := Msg{Kind: kind, Chaddr: g.macs[i], Xid: g.xid[i]}
-	m.HasCid, m.Cid = g.cid(i, g.cidv[i])
-	return m
+func (g *Gen) msg(kind byte, id *ident) Msg {
+	g.cur = id
+	return Msg{Kind: kind, Chaddr: g.macs[id.mac], Xid: id.xid, HasCid: id.hasCid, Cid: id.cid}
+}
+
+func (g *Gen) discover(id *ident, newXid bool, req *uint32) string {
+	if newXid {
+		id.xid = xids[g.R.Intn(len(xids))]
+	}
+	m := g.msg('D', id)
+	m.Req = req
+	m.Prl = prls[g.R.Intn(len(prls))]
+	return m.Token()
+}
+
+func (g *Gen) selectOffer(id *ident) string {
+	m := g.msg('R', id)
+	m.Req, m.Sid = p32(id.offer), p32(g.C.HostIP)
+	if id.offer == 0 {
+		m.Req = p32(g.anyIP())
+	}
+	return m.Token()
+}
+
+// rival returns another identity, preferring one that shares the MAC or the client identifier.
+func (g *Gen) rival(id *ident) *ident {
+	var near, all []*ident
+	for _, o := range g.ids {
+		if o == id {
+			continue
+		}
+		all = append(all, o)
+		if o.mac == id.mac || (o.hasCid && id.hasCid && string(o.cid) == string(id.cid)) {
+			near = append(near, o)
+		}
+	}
+	if len(near) > 0 && g.R.Chance(60) {
+		return near[g.R.Intn(len(near))]
+	}
+	return all[g.R.Intn(len(all))]
 }
 
 func (g *Gen) next() string {
 	r := g.R
-	i := r.Intn(3)
+	g.cur = nil
+	if len(g.queue) > 0 {
+		f := g.queue[0]
+		g.queue = g.queue[1:]
+		return f()
+	}
+	id := g.ids[r.Intn(len(g.ids))]
 	if g.Level == 1 {
-		if r.Chance(45) || g.offer[i] == 0 {
-			g.xid[i] = xids[r.Intn(len(xids))]
-			m := g.msg('D', i)
+		if r.Chance(45) || id.offer == 0 {
+			id.xid = xids[r.Intn(len(xids))]
+			m := g.msg('D', id)
 			m.Prl = prls[r.Intn(3)]
 			m.Bflag = r.Bool()
 			return m.Token()
 		}
-		m := g.msg('R', i)
-		if r.Chance(70) || g.ack[i] == 0 {
-			m.Req, m.Sid = p32(g.offer[i]), p32(g.C.HostIP)
+		m := g.msg('R', id)
+		if r.Chance(70) || id.ack == 0 {
+			m.Req, m.Sid = p32(id.offer), p32(g.C.HostIP)
 		} else {
-			m.Ciaddr, m.Src = g.ack[i], g.ack[i]
+			m.Ciaddr, m.Src = id.ack, id.ack
 		}
 		return m.Token()
 	}
 	k := r.Intn(100)
 	switch {
-	case k < 30: // DISCOVER
-		if r.Chance(60) {
-			g.xid[i] = xids[r.Intn(len(xids))]
+	case k < 5: // script: capture state toggles between acquiring a lease and the next DISCOVER / REQUEST
+		tog := "C,"
+		if r.Chance(35) {
+			tog = "U,"
 		}
-		if r.Chance(15) {
-			g.cidv[i] = r.Pick(0, 0, 1, 1, 2, 3)
+		g.queue = append(g.queue,
+			func() string { return tog + hxmac(g.macs[id.mac]) },
+			func() string {
+				if r.Chance(60) {
+					return g.discover(id, r.Chance(70), nil)
+				}
+				m := g.msg('R', id) // renew / reboot of the old address right after the toggle
+				if r.Bool() {
+					m.Ciaddr = id.ack
+				} else {
+					m.Req = p32(id.ack)
+				}
+				return m.Token()
+			},
+			func() string { return g.selectOffer(id) })
+		if id.ack == 0 { // first acquire a lease, possibly at a requested address
+			var req *uint32
+			if r.Bool() {
+				req = p32(g.anyIP())
+			}
+			g.queue = append([]func() string{
+				func() string { return g.discover(id, true, req) },
+				func() string { return g.selectOffer(id) }}, g.queue...)
 		}
-		m := g.msg('D', i)
+		return g.next()
+	case k < 10: // script: two clients hold the same pending offer, then both REQUEST it
+		other := g.rival(id)
+		g.queue = append(g.queue,
+			func() string { return g.discover(id, true, nil) },
+			func() string { return g.discover(other, true, p32(id.offer)) },
+			func() string { return g.selectOffer(id) },
+			func() string { return g.selectOffer(other) })
+		if r.Bool() {
+			g.queue[2], g.queue[3] = g.queue[3], g.queue[2]
+		}
+		return g.next()
+	case k < 14: // script: the lease's expiry is moved just before / after the handler's clock, then the client comes back
+		off := r.Pick(-600, -5, 5, 600)
+		g.queue = append(g.queue,
+			func() string { return "E," + cidTok(id, g.macs) + "," + strconv.Itoa(off) },
+			func() string {
+				switch r.Intn(4) {
+				case 0:
+					return g.discover(id, r.Bool(), nil)
+				case 1:
+					m := g.msg('R', id) // reboot
+					m.Req = p32(id.ack)
+					return m.Token()
+				default:
+					m := g.msg('R', id) // renew
+					m.Ciaddr, m.Src = id.ack, id.ack
+					return m.Token()
+				}
+			})
+		if id.ack == 0 {
+			g.queue = append([]func() string{
+				func() string { return g.discover(id, true, nil) },
+				func() string { return g.selectOffer(id) }}, g.queue...)
+		}
+		return g.next()
+	case k < 32: // DISCOVER
+		var req *uint32
 		if r.Chance(45) {
-			m.Req = p32(g.anyIP())
+			req = p32(g.anyIP())
 		}
+		if r.Chance(60) {
+			id.xid = xids[r.Intn(len(xids))]
+		}
+		m := g.msg('D', id)
+		m.Req = req
 		m.Prl = prls[r.Intn(len(prls))]
 		m.Bflag = r.Chance(30)
 		if r.Chance(10) {
@@ -152,33 +278,33 @@ func (g *Gen) next() string {
 			m.Sid = p32(g.C.HostIP)
 		}
 		return m.Token()
-	case k < 72: // REQUEST
-		m := g.msg('R', i)
+	case k < 70: // REQUEST
+		m := g.msg('R', id)
 		m.Prl = prls[r.Intn(len(prls))]
 		m.Bflag = r.Chance(20)
 		switch q := r.Intn(100); {
 		case q < 45: // SELECT of our offer
-			m.Req, m.Sid = p32(g.offer[i]), p32(g.C.HostIP)
-			if g.offer[i] == 0 {
+			m.Req, m.Sid = p32(id.offer), p32(g.C.HostIP)
+			if id.offer == 0 {
 				m.Req = p32(g.anyIP())
 			}
 		case q < 55: // SELECT of another server
 			m.Req, m.Sid = p32(g.anyIP()), p32(g.C.RouterIP)
 		case q < 68: // RENEW
-			m.Ciaddr = g.ack[i]
+			m.Ciaddr = id.ack
 			if m.Ciaddr == 0 || r.Chance(20) {
 				m.Ciaddr = g.anyIP()
 			}
 			m.Src = m.Ciaddr
 		case q < 74: // REBIND (IP source is the limited broadcast in the code's reading)
-			m.Ciaddr = g.ack[i]
+			m.Ciaddr = id.ack
 			if m.Ciaddr == 0 || r.Chance(20) {
 				m.Ciaddr = g.anyIP()
 			}
 			m.Src = 0xffffffff
 		case q < 88: // INIT-REBOOT
-			m.Req = p32(g.ack[i])
-			if g.ack[i] == 0 || r.Chance(30) {
+			m.Req = p32(id.ack)
+			if id.ack == 0 || r.Chance(30) {
 				m.Req = p32(g.anyIP())
 			}
 		default: // arbitrary fields
@@ -200,9 +326,9 @@ func (g *Gen) next() string {
 			}
 		}
 		return m.Token()
-	case k < 79: // DECLINE
-		m := g.msg('X', i)
-		m.Req = p32(g.ack[i])
+	case k < 77: // DECLINE
+		m := g.msg('X', id)
+		m.Req = p32(id.ack)
 		if r.Chance(40) {
 			m.Req = p32(g.anyIP())
 		}
@@ -218,10 +344,10 @@ func (g *Gen) next() string {
 			m.Sid = p32(g.C.HostIP)
 		}
 		return m.Token()
-	case k < 83: // RELEASE
-		m := g.msg('L', i)
-		m.Ciaddr = g.ack[i]
-		m.Src = g.ack[i]
+	case k < 81: // RELEASE
+		m := g.msg('L', id)
+		m.Ciaddr = id.ack
+		m.Src = id.ack
 		if r.Chance(30) {
 			m.Ciaddr = g.anyIP()
 		}
@@ -229,34 +355,51 @@ func (g *Gen) next() string {
 			m.Sid = p32(g.C.HostIP)
 		}
 		return m.Token()
-	case k < 89:
-		return "C," + hxmac(g.macs[i])
-	case k < 93:
-		return "U," + hxmac(g.macs[i])
+	case k < 86:
+		return "C," + hxmac(g.macs[id.mac])
+	case k < 90:
+		return "U," + hxmac(g.macs[id.mac])
+	case k < 94: // a lease's expiry moved to just before / after the handler's clock, or far away (verif hook)
+		return "E," + cidTok(id, g.macs) + "," + strconv.Itoa(r.Pick(-600, -5, 5, 600))
 	default: // MinuteTicker: well before / after the 4 h lease end (the real clock moves < 1 min per history)
 		return "T," + strconv.Itoa(r.Pick(0, 3600, 13800, 15000, 15000, 30000))
 	}
 }
 
+// cidTok is the table key of an identity (option 61, else chaddr) as hex.
+func cidTok(id *ident, macs []net.HardwareAddr) string {
+	if id.hasCid && len(id.cid) > 0 { // a zero-length option 61 counts as absent
+		return lib.Hex(id.cid)
+	}
+	return hxmac(macs[id.mac])
+}
+
 // History returns the op tokens of one history of the given depth.
 func (g *Gen) History(depth int) []string {
-	g.sv = NewServer(g.C)
+	if g.Stale[0] != 0 {
+		g.sv = NewStaleServer(g.C, g.Stale[0], g.Stale[1])
+		size := uint32(1) << (32 - uint(g.Stale[0]))
+		base := g.C.HomeIP / size * size
+		g.alpha = append(g.alpha, base+1, base+size-2, base+size/2+5) // addresses of the stale (wider) home prefix
+	} else {
+		g.sv = NewServer(g.C)
+	}
 	defer g.sv.Close()
 	var ops []string
 	for n := 0; n < depth; n++ {
 		tok := g.next()
+		if f := strings.Split(tok, ","); g.Stale[0] != 0 && len(f) == 10 {
+			f[8] = "00000000"
+			tok = strings.Join(f, ",")
+		}
 		ops = append(ops, tok)
 		_, rp := g.sv.Step(tok)
-		if rp != nil {
-			for i, m := range g.macs {
-				if string(m) == string(rp.Chaddr) {
-					switch rp.Type {
-					case 2:
-						g.offer[i] = rp.Yi
-					case 5:
-						g.ack[i] = rp.Yi
-					}
-				}
+		if rp != nil && g.cur != nil {
+			switch rp.Type {
+			case 2:
+				g.cur.offer = rp.Yi
+			case 5:
+				g.cur.ack = rp.Yi
 			}
 		}
 	}
@@ -275,6 +418,7 @@ func Generate(r *lib.Run, level int, modes []int, nCfg int) {
 		seed  uint64
 		cfg   Cfg
 		depth int
+		stale [2]int
 	}
 	jobs := make(chan job, 64)
 	done := make(chan bool)
@@ -283,9 +427,16 @@ func Generate(r *lib.Run, level int, modes []int, nCfg int) {
 		go func() {
 			for j := range jobs {
 				g := NewGen(lib.NewRand(j.seed), j.cfg, level)
+				g.Stale = j.stale
 				ops := g.History(j.depth)
 				args := append(j.cfg.Tokens(), ops...)
-				obs := r.Do("hist", args...)
+				kind := "hist"
+				if j.stale[0] != 0 {
+					kind = "stale"
+					args = append(append(j.cfg.Tokens(), strconv.Itoa(j.stale[0]), strconv.Itoa(j.stale[1])), ops...)
+					r.Stat("class.stale-file", 1)
+				}
+				obs := r.Do(kind, args...)
 				steps := strings.Fields(strings.SplitN(obs, " | ", 2)[0])
 				for i, o := range ops {
 					if i < len(steps) && (o[0] == 'D' || o[0] == 'R') {
@@ -305,7 +456,14 @@ func Generate(r *lib.Run, level int, modes []int, nCfg int) {
 		if i%3 != 0 {
 			depth = 20 + rng.Intn(40)
 		}
-		jobs <- job{seed: rng.U64(), cfg: StdCfg(rng.Intn(nCfg), modes[rng.Intn(len(modes))]), depth: depth}
+		j := job{seed: rng.U64(), cfg: StdCfg(rng.Intn(nCfg), modes[rng.Intn(len(modes))]), depth: depth}
+		if level > 1 && i%20 == 7 { // a lease file of an earlier run with shorter prefixes is still there
+			j.stale = [2]int{j.cfg.HomeBits - 1 - rng.Intn(4), j.cfg.NfBits - rng.Intn(3)}
+			if j.stale[1] < j.stale[0] {
+				j.stale[1] = j.stale[0]
+			}
+		}
+		jobs <- j
 	}
 	close(jobs)
 	for w := 0; w < workers; w++ {
@@ -339,8 +497,8 @@ func Corpus(r *lib.Run) {
 		}
 		for _, l := range strings.Split(string(b), "\n") {
 			f := strings.Fields(l)
-			if len(f) > 11 && f[0] == "hist" {
-				r.Do("hist", f[1:]...)
+			if len(f) > 11 && (f[0] == "hist" || f[0] == "stale") {
+				r.Do(f[0], f[1:]...)
 				r.Stat("class.corpus", 1)
 			}
 		}
@@ -349,23 +507,30 @@ func Corpus(r *lib.Run) {
 
 // Exhaustive enumerates every history up to the given depth over a small alphabet of ops in the
 // /29+/30 configuration (pool 10.0.0.2-.5; first offers are .2 then .3), two clients: the
-// interleavings between OFFER and REQUEST, requests for the other client's address, capture,
-// expiry and decline.  Thorough tier only (validates the model; the theorems cover every depth).
+// interleavings between OFFER and REQUEST, requests for the other client's address, a second client
+// identifier behind the same MAC, capture, expiry (MinuteTicker and the expiry hook), decline, release.  Thorough tier only (validates the model; the theorems cover every depth).
 func Exhaustive(r *lib.Run, mode int, depth int, nTokens int) {
 	c := StdCfg(1, mode)
 	m1, m2 := net.HardwareAddr{2, 0, 0, 0, 0, 1}, net.HardwareAddr{2, 0, 0, 0, 0, 2}
 	a2, a3 := uint32(0x0a000002), uint32(0x0a000003)
+	cid1 := hxmac(m1)
 	toks := []string{
 		Msg{Kind: 'D', Chaddr: m1, Xid: 0x11111111}.Token(),
 		Msg{Kind: 'D', Chaddr: m2, Xid: 0x22222222, Req: &a2}.Token(),
 		Msg{Kind: 'R', Chaddr: m1, Xid: 0x11111111, Req: &a2, Sid: &c.HostIP}.Token(),
 		Msg{Kind: 'R', Chaddr: m2, Xid: 0x22222222, Req: &a2, Sid: &c.HostIP}.Token(),
+		Msg{Kind: 'R', Chaddr: m1, Xid: 0x11111111, Ciaddr: a2}.Token(), // renew
+		"E," + cid1 + ",-5",
+		Msg{Kind: 'X', Chaddr: m1, Xid: 0x11111111, Req: &a2, Sid: &c.HostIP}.Token(),
 		"T,15000",
 		"C," + hxmac(m1),
-		Msg{Kind: 'R', Chaddr: m1, Xid: 0x11111111, Ciaddr: a2}.Token(),
+		Msg{Kind: 'L', Chaddr: m1, Xid: 0x11111111, Ciaddr: a2, Sid: &c.HostIP}.Token(),
+		"E," + cid1 + ",5",
+		Msg{Kind: 'D', Chaddr: m1, Xid: 0x33333333, HasCid: true, Cid: []byte{0xb2}, Req: &a2}.Token(), // second client id behind m1
+		Msg{Kind: 'R', Chaddr: m1, Xid: 0x33333333, HasCid: true, Cid: []byte{0xb2}, Req: &a2, Sid: &c.HostIP}.Token(),
 		Msg{Kind: 'D', Chaddr: m2, Xid: 0x22222222}.Token(),
 		Msg{Kind: 'R', Chaddr: m2, Xid: 0x22222222, Req: &a3, Sid: &c.HostIP}.Token(),
-		Msg{Kind: 'X', Chaddr: m1, Xid: 0x11111111, Req: &a2, Sid: &c.HostIP}.Token(),
+		Msg{Kind: 'R', Chaddr: m1, Xid: 0x11111111, Req: &a2}.Token(), // reboot
 	}
 	if nTokens < len(toks) {
 		toks = toks[:nTokens]
